@@ -318,7 +318,14 @@ pub fn header_parser(i: &[u8]) -> IResult<&[u8], (BlockType, Headers, bool)> {
     let (i, (typ, headers)) = armor_header(i)?;
 
     // "A blank (zero length or containing only whitespace) line"
-    let (i, _) = pair(space0, line_ending).parse(i)?;
+    let (i, _) = match pair(space0, line_ending).parse(i) {
+        // The header lines are parsed with `complete`, so a header line that is cut off by the
+        // end of the buffer ends up here. More input is needed to tell what it is.
+        Err(nom::Err::Error(_)) if !i.contains(&b'\n') => {
+            return Err(nom::Err::Incomplete(nom::Needed::Unknown));
+        }
+        res => res?,
+    };
 
     Ok((i, (typ, headers, has_leading_data)))
 }
